@@ -149,6 +149,10 @@ func c19Res(key string) j.Resource {
 		// an ATTRIBUTE named like the collection's relationship "many", a RELATIONSHIP named like its
 		// attribute "b" (Go types that cannot be mistaken for one another: int / []string)
 		return mk(TypeD{Name: "t", Attrs: []AttrD{{"many", kInt}}, Rels: []RelD{{"b", false, "u", ""}}}, true, "8", map[string]any{"many": 7, "b": []string{"z"}})
+	case "R9nullability":
+		// the same attribute names and base kinds as the collection's, differing in nullability only
+		// (b: int here, *int there; a: *string here, string there): ill-typed for the collection, dropped
+		return mk(TypeD{Name: "t", Attrs: []AttrD{{"b", kInt}, {"a", Kind{j.AttrTypeString, true}}}}, true, "9", map[string]any{"b": 5, "a": Ptr("ptr")})
 	case "R0noid":
 		// a resource that has not been given an ID yet
 		return mk(c19Base, true, "", map[string]any{"a": "noid"})
@@ -160,7 +164,7 @@ func c19Res(key string) j.Resource {
 
 func c19Ops() []c19Op {
 	var ops []c19Op
-	for _, k := range []string{"R1", "R2", "R1dup", "R3narrow", "R4wide", "R5conflict", "R6wrapped", "R0noid", "R8cross"} {
+	for _, k := range []string{"R1", "R2", "R1dup", "R3narrow", "R4wide", "R5conflict", "R6wrapped", "R0noid", "R8cross", "R9nullability"} {
 		k := k
 		ops = append(ops, c19Op{name: "Add(" + k + ")", do: func(y *c19Sys) error {
 			r := c19Res(k)
@@ -517,6 +521,9 @@ func c19BFS(c *Ctx, eager bool) *mc.BFS {
 	name := "C19/histories"
 	if eager {
 		name = "C19/histories-read-after-every-step"
+	} else if !Thorough() {
+		// quick tier: the search without intermediate reads goes one level less deep than the other
+		depth--
 	}
 	return &mc.BFS{Name: name, NOps: len(ops), MaxDepth: depth, Workers: c.Workers, R: c.R,
 		OpName: func(i int) string { return ops[i].name },
@@ -526,7 +533,7 @@ func c19BFS(c *Ctx, eager bool) *mc.BFS {
 func init() {
 	Register(&Prop{
 		ID: "C19",
-		Rule: "Engine B: breadth-first search over ALL histories (depth <= 4 quick / 5 thorough) of 30 operations on a real SoftCollection whose type has been set: Add of 9 resources (same type, second id, duplicate id, narrower, wider, conflicting kind/cardinality for the same field name, attribute named like a relationship of the collection and vice versa, wrapped struct, empty id), Remove(1|2|9|\"\"), AddAttr(new|duplicate|invalid|case twin), AddRel(new|duplicate|case twin), SetType(same pointer|new type|renamed copy of the current type), Set on the original resources after they were added, reading everything; de-duplicated by deep snapshot. Two searches: in the first nothing is read between the operations of a history (reading is an operation), in the second everything is read after every step (reads cost no depth); after the last step Len, At(-1..Len), Resource(id), GetType and Get of every current field of every stored resource are compared with a list model (order, ids, well-typed values snapshotted at Add, zero for later fields). Every state beyond the initial one is non-trivial",
+		Rule: "Engine B: breadth-first search over ALL histories (depth <= 4 quick - 3 without intermediate reads - / 5 thorough) of 31 operations on a real SoftCollection whose type has been set: Add of 10 resources (attributes differing from the collection's in nullability only, same type, second id, duplicate id, narrower, wider, conflicting kind/cardinality for the same field name, attribute named like a relationship of the collection and vice versa, wrapped struct, empty id), Remove(1|2|9|\"\"), AddAttr(new|duplicate|invalid|case twin), AddRel(new|duplicate|case twin), SetType(same pointer|new type|renamed copy of the current type), Set on the original resources after they were added, reading everything; de-duplicated by deep snapshot. Two searches: in the first nothing is read between the operations of a history (reading is an operation), in the second everything is read after every step (reads cost no depth); after the last step Len, At(-1..Len), Resource(id), GetType and Get of every current field of every stored resource are compared with a list model (order, ids, well-typed values snapshotted at Add, zero for later fields). Every state beyond the initial one is non-trivial",
 		Assumptions: []string{"after SetType(new type) values of fields that keep name and kind are expected to be retained (natural reading; only the field set is stated)", "only later Set calls on the original are judged, not in-place mutation of its slices"},
 		Harnesses: []Harness{{Name: "C19/histories",
 			Custom: func(c *Ctx) {
